@@ -510,3 +510,10 @@ def c05_moment_bound(ctx, shape, l1, weighted):
         m2 = m2 + s * s
     ctx.ensure("cost >= 0", cost >= 0)
     ctx.ensure("cost^2 >= |first-moment displacement of the transported mass difference|^2", cost * cost >= m2)
+
+
+@ob("C05.dep_emd", kind="B", samples=(2, 6), funcs=[], tol=1e-4, cite="(validation of an assumed dependency contract)",
+    note="meaning of cv2.EMD's first return value (mass-normalised work for the signatures' positions) against the installed OpenCV; float32")
+def c05_dep_emd(ctx):
+    from contracts import deps_validation as dv
+    dv.dep_emd(ctx)
